@@ -67,7 +67,8 @@ deriving DecidableEq, Repr, Inhabited
 
 /-- which repairs are applied -/
 structure Cfg where
-  /-- F15: no cx check towards the top level in `talloc_reparent` -/
+  /-- F15: `throw_child` moves the child itself (`move_child`) instead of asking
+  `talloc_reparent`, which may refuse (cx check) -/
   fixCx : Bool
   /-- F14a: `memlimit_walk` counts `total_size(size)` -/
   fixWalk : Bool
@@ -261,6 +262,16 @@ def allRefsUnder (s : State) (tparent : Option Id) : List Id → Bool
 
 /-! ## reparent -/
 
+/-- `move_child(t, tnew, told)`: list_del, add_child, parent, move_memlimit -/
+def moveChild (cfg : Cfg) (s : State) (t : Id) (tnew told : Option Id) : State :=
+  match s.get t with
+  | none => s
+  | some tb =>
+    let s1 := detach s t
+    let s2 := addChild s1 tnew t (isRef tb)
+    let s3 := s2.modify t fun x => { x with parent := tnew }
+    moveMemlimit cfg s3 t tnew told
+
 /-- `talloc_reparent(old_parent, new_parent, ptr)`; `true` = returned `ptr` -/
 def reparent (cfg : Cfg) (s : State) (oldp newp : Option Id) (o : Id) : State × Bool :=
   match s.get o with
@@ -282,15 +293,8 @@ def reparent (cfg : Cfg) (s : State) (oldp newp : Option Id) (o : Id) : State ×
           let cxnew : Nat := match tnew with
             | some n => (match s.get n with | some nb => nb.cx | none => 0)
             | none => 0
-          let cxBad : Bool :=
-            if cfg.fixCx then tnew.isSome && tnew ≠ s.nullCtx && tb.cx ≠ cxnew
-            else tb.cx ≠ cxnew
-          if cxBad then (s, false)
-          else
-            let s1 := detach s t
-            let s2 := addChild s1 tnew t (isRef tb)
-            let s3 := s2.modify t fun x => { x with parent := tnew }
-            (moveMemlimit cfg s3 t tnew told, true)
+          if tb.cx ≠ cxnew then (s, false)
+          else (moveChild cfg s t tnew told, true)
 
 /-- first non-pending ancestor; outer `none` = fuel exhausted -/
 def climbPending : Nat → State → Option Id → Option (Option Id)
@@ -310,7 +314,12 @@ def throwChild (cfg : Cfg) (s : State) (t : Id) : State :=
   | some tb =>
     match climbPending s.fuel s tb.parent with
     | none => s.setOof
-    | some parent => (reparent cfg s tb.parent parent t).1
+    | some parent =>
+      if cfg.fixCx then
+        let parent := orNull s parent
+        -- old parent goes away, so this must not fail like talloc_reparent() can
+        if parent ≠ tb.parent then moveChild cfg s t parent tb.parent else s
+      else (reparent cfg s tb.parent parent t).1
 
 /-! ## free / unlink / free_children -/
 
